@@ -27,7 +27,7 @@ SPECIAL = [
     "from t | select {x = case [a => 1, b => 2, c => 3]} | filter x == y",
 ]
 NOISE_ERR = "from t | select {a} | filter nosuchcolumn > 1"
-NOISE_PANIC = "from ñññññññññññññ | select )"
+NOISE_PANIC = "from t1\nselect{t1.s,n6=a}\nselect{n6,s, n7 = n6}\nselect {n6, n8 = s}\nfilter (2 > (n6 ))\nsort {n6, n8}\n"
 
 
 def _parts(o):
